@@ -196,7 +196,7 @@ def concrete(cfg, rng):
     length, dr = [(256, 0.125), (256, 0.125), (300, 0.1), (512, 0.0625), (200, 0.15)][int(rng.integers(0, 5))]
     d = {'types': T, 'kT': float(rng.choice([1.0, 1.5, 0.8])), 'dr': dr, 'length': length, 'rho': rho,
          'diam': {t: [1.0, 1.0, 1.5][i] for i, t in enumerate(T)}, 'pot': {}, 'clo': {}, 'omega': {},
-         'assign': str(rng.choice(['group', 'pair', 'setunset'])), 'diam_idiom': str(rng.choice(['direct', 'sweep'])),
+         'assign': str(rng.choice(['group', 'pair', 'setunset', 'edit'])), 'diam_idiom': str(rng.choice(['direct', 'sweep'])),
          'num_style': str(rng.choice(['float', 'np', 'int'])), 'reuse': bool(rng.random() < 0.4),
          'domain_idiom': str(rng.choice(['direct', 'direct', 'setter', 'dk', 'length']))}
     for a, b in systems.pairs(T):
